@@ -25,11 +25,13 @@ CLAIM = dict(
           "changes, assignment to them is error 44; a missing module is error 60 and a missing library error 64; a run whose "
           "import relation has a cycle reachable from the main file never ends normally and the import closing a cycle is answered "
           "with error 63; A-B-C maps to A/B/C.zn; a method called through an import — and the custom constructor of an imported type — runs on "
-          "a frame of its home module and finds that module's methods and types. The model is the repaired algorithm (fixes/C15-1.patch, C15-2.patch); it is tied to "
+          "a frame of its home module and finds that module's methods and types, also when it is called through a variable of another "
+          "module that holds it (a method value carries its home: C15_aliased_method_runs_in_home_module, C15_alias_then_call_runs_in_home_module). The model is the repaired algorithm (fixes/C15-1.patch, C15-2.patch); it is tied to "
           "the code on every run by executing ALL digraphs on <=3 (quick) / <=4 (thorough, modulo renaming) modules plus random "
           "larger graphs as directories of generated .zn files."),
     note=TB + ("module sources are abstracted to imports / method and type definitions / marker, call, probe, assignment, "
-               "declaration and object statements; ghost events EStart/EDone in the model's trace are used only to state theorems; "
+               "declaration, alias (令x = f) and object statements; methods return nothing in the model, so the flow of OBJECTS between modules "
+               "(an object of a type its holder did not import) is tied by a family of programs with expectations by construction; ghost events EStart/EDone in the model's trace are used only to state theorems; "
                "OS path cleaning (empty, '.', '..', '/' inside a name segment) and global names used as method names are outside "
                "the model; selective import of a name that is not exported is silently ignored by the code and is not judged; "
                "importing a module twice in ONE file redeclares its names (error 43) and is mirrored. Partial: termination of "
@@ -65,6 +67,8 @@ def render_stmt(s, ind):
         return [pad + "令%s = 1" % s[1]]
     if k == "newcall":
         return [pad + "令%s = （新建%s）" % (s[1], s[2]), pad + "以%s（%s）" % (s[1], s[3])]
+    if k == "alias":
+        return [pad + "令%s = %s" % (s[1], s[2])]
     raise ValueError(k)
 
 
@@ -134,6 +138,8 @@ def stmt_term(s):
         return "SDeclare " + zname(s[1])
     if k == "newcall":
         return "SNewCall %s %s %s" % (zname(s[1]), zname(s[2]), zname(s[3]))
+    if k == "alias":
+        return "SAlias %s %s" % (zname(s[1]), zname(s[2]))
     raise ValueError(k)
 
 
@@ -349,7 +355,15 @@ def random_case(rng, kinds):
         for _ in range(rng.randrange(0, 4)):
             q = rng.random()
             if q < 0.45 and visible_f:
-                body.append(["call", rng.choice(visible_f)])
+                fcall = rng.choice(visible_f)
+                if rng.random() < 0.3:
+                    # the method kept in a variable of this module and called through it: it still runs in its home module
+                    al = "别%d" % mk.new()
+                    body.append(["alias", al, fcall])
+                    body.append(["call", al])
+                    feature.append("call-through-alias")
+                else:
+                    body.append(["call", fcall])
             elif q < 0.6 and visible_c:
                 body.append(["newcall", "物%d" % mk.new(), rng.choice(visible_c), "报告"])
             elif q < 0.7 and (visible_f or visible_c or visible_f_lib):
@@ -458,7 +472,62 @@ def load_corpus():
     return []
 
 
+def run_object_flow(chk, replay=None):
+    """An object of a type of module 库 reaches a module that did not import the type by name (an imported method made it, or
+    handed it on): its methods run as they do inside 库 — they use 库's other methods — whoever holds the object. The values the
+    model's programs pass around are not modelled (its methods return nothing), so the expectation is by construction: the
+    marker lines K… in the order the program prescribes."""
+    rng = chk.rng
+    cases = []
+    if replay is not None:
+        cases = [replay["case"]]
+    else:
+        for _ in range(16 if chk.tier == "quick" else 150):
+            k = [rng.randrange(10, 99) for _ in range(6)]
+            lib = ("如何助手？\n    （显示：“K%d”）\n    输出%d\n\n定义货：\n    其名 = “x”\n\n    如何报告？\n        （显示：“K%d”）\n        输出（助手）+ 1\n\n"
+                   "如何造？\n    （显示：“K%d”）\n    输出（新建货）\n") % (k[0], k[1], k[2], k[3])
+            how = rng.randrange(4)
+            imp = rng.choice(["导入“库”之造", "导入“库”之造、助手", "导入“库”"])
+            if how == 0:
+                main = imp + "\n令物 = （造）\n（显示：“K%d”）\n输出以物（报告）\n" % k[4]
+                want_disp, want_val = [k[3], k[4], k[2], k[0]], k[1] + 1
+            elif how == 1:
+                main = imp + "\n（造）得到物\n令副 = 【物】\n输出以副#1（报告）\n"
+                want_disp, want_val = [k[3], k[2], k[0]], k[1] + 1
+            elif how == 2:
+                mid = "导入“库”之造\n如何转？\n    （显示：“K%d”）\n    输出（造）\n" % k[5]
+                main = "导入“中”之转\n令物 = （转）\n输出以物（报告）\n"
+                cases.append({"files": {"主.zn": main, "库.zn": lib, "中.zn": mid}, "main": "主.zn", "want_disp": [k[5], k[3], k[2], k[0]], "want_val": k[1] + 1})
+                continue
+            else:
+                main = imp + "\n如何用？\n    输入某\n    输出以某（报告）\n\n输出（用：（造））\n"
+                want_disp, want_val = [k[3], k[2], k[0]], k[1] + 1
+            cases.append({"files": {"主.zn": main, "库.zn": lib}, "main": "主.zn", "want_disp": want_disp, "want_val": want_val})
+    tmproot = tempfile.mkdtemp(prefix="znc15o_")
+    try:
+        outs = core.harness("c15", "run", [{"files": c["files"], "main": c["main"], "root": tmproot} for c in cases], timeout_ms=30000)
+    finally:
+        shutil.rmtree(tmproot, ignore_errors=True)
+    for c, o in zip(cases, outs):
+        chk.count(["object-flow", c["files"]])
+        chk.dist("kind:object-flow")
+        disp = [l for l in o.get("display", [])]
+        want = ["K%d" % x for x in c["want_disp"]]
+        val = o.get("value")
+        ok = o.get("kind") == "value" and disp == want
+        if not ok:
+            chk.violation("an object of a type of module 库 held by a module that did not import the type: its method does not behave as inside "
+                          "库 — displayed %s (expected %s), outcome %s; files %s" % (disp, want, json.dumps({k: v for k, v in o.items() if k != "display"}, ensure_ascii=False)[:200],
+                                                                                   json.dumps(c["files"], ensure_ascii=False)[:500]),
+                          "object-flow", {"kind": "object-flow", "case": c, "observed": o, "replay_cmd": "./check C15 --replay <this file>"})
+
+
 def run(chk, replay=None):
+    if replay is not None and replay.get("kind") == "object-flow":
+        run_object_flow(chk, replay)
+        return
+    if replay is None:
+        run_object_flow(chk)
     rng = chk.rng
     quick = chk.tier == "quick"
     kinds = {}
